@@ -41,7 +41,7 @@ def f4 : Prims Oracle :=
     roots := fun _ _ => (0, 1)
     upgradeItem := fun _ _ => none
     eciFull := fun _ _ => (2, 463)
-    eciEmpty := (3, 2)
+    eciEmpty := fun _ => (3, 4)
     post := fun s _ _ => .ok (s, 0)
     prices := fun s _ => if s.pairExists then .ok ({ s with price := 100 }, 1) else .error .prices }
 
@@ -69,7 +69,7 @@ def f11 : Prims Bool :=
     roots := fun _ _ => (0, 1)
     upgradeItem := fun _ _ => none
     eciFull := fun _ _ => (2, 4)
-    eciEmpty := (3, 2)
+    eciEmpty := fun _ => (3, 4)
     post := fun s _ _ => .ok (s, 0)
     prices := fun s _ => .ok (s, 0) }
 
@@ -82,7 +82,7 @@ def f11Items : List Item := [.root1 0, .root2 1, .tx addRelayer, .tx removeRelay
 
 def f11Block : Block := f11Req.proposed f11Items 0x7b19db6b
 
-/-! ### F12: `max_tx_bytes` too small for the extended commit info -/
+/-! ### F12 (fixed by `fix:` commit 259c046): `max_tx_bytes` too small for the extended commit info -/
 
 def f12 : Prims Unit :=
   { veEnabled := fun _ _ => true
@@ -93,7 +93,7 @@ def f12 : Prims Unit :=
     roots := fun _ _ => (0, 1)
     upgradeItem := fun _ _ => none
     eciFull := fun _ _ => (2, 463)
-    eciEmpty := (3, 2)
+    eciEmpty := fun _ => (3, 4)
     post := fun s _ _ => .ok (s, 0)
     prices := fun s _ => .ok (s, 0) }
 
@@ -101,7 +101,11 @@ def f12Req : PrepReq :=
   { height := 5, time := 1750000500, proposer := 1, lastCommit := some 0, misbehavior := 0,
     nextValHash := 0, maxTxBytes := 100, queue := [] }
 
-def f12Items : List Item := [.root1 0, .root2 1, .eci 3 2 false]
+/-- what the pinned code proposed: the empty-bytes fallback item (not well-formed) -/
+def f12Items : List Item := [.root1 0, .root2 1, .eci 3 4 false]
+
+/-- what the repaired code proposes: the encoded well-formed empty extended commit info -/
+def f12ItemsFixed : List Item := [.root1 0, .root2 1, .eci 3 4 true]
 
 /-! ### a well-behaved instance for the non-vacuity examples: a counter -/
 
@@ -123,7 +127,7 @@ def counter : Prims Nat :=
     execTx := fun s t => if t.id = 6 then .nonfatal else if t.id = 7 then .fatal else .ok (s + 1)
     roots := fun s _ => (s, s + 1)
     eciFull := fun _ _ => (2, 463)
-    eciEmpty := (3, 2)
+    eciEmpty := fun _ => (3, 4)
     post := fun s _ _ => .ok (s + 10, 0)
     prices := fun s _ => .ok (s + 1000, 1) }
 
